@@ -288,6 +288,20 @@ def rule_R4(ctx, prj, w: Writer):
                          f"{unparse(res[True])[:160]!r} vs {unparse(res[False])[:160]!r}")
     if len(readers) < 2:
         raise AnalysisError("pretty_print is read by fewer than the two layout helpers confirmed by reading")
+    # the document skeleton folded for pretty_print = True and = False parses to the same key tree
+    trees = {}
+    for val in (True, False):
+        w.pretty = val
+        try:
+            doc, _ = w.key_tree()
+            trees[val] = tree_paths(doc)
+        finally:
+            w.pretty = True
+    if trees[True] == trees[False]:
+        ctx.ok("R4", w.ci.methods["to_json"].site(), f"document skeleton: {len(trees[True])} key paths, identical for pretty and compact")
+    else:
+        diff = sorted("/".join(p) for p in trees[True] ^ trees[False])[:5]
+        ctx.viol("R4", "to_json/forms-differ", w.ci.methods["to_json"].site(), f"the pretty and the compact document contain different keys: {diff}")
 
 
 def rule_R5(ctx, prj, r: Reader):
